@@ -238,18 +238,27 @@ func cloneCheck(b []byte, want string) (bad string) {
 		}
 	}()
 	orig := append([]byte(nil), b...)
+	b = append([]byte(nil), b...) // the source the clones are taken from; scribbled over below
 	var clones [][]byte
+	var walks []func() string
 	switch spec.Value(b).Type() {
 	case spec.TypeMessage, spec.TypeBigMessage:
 		m := spec.OpenMessage(b)
-		clones = append(clones, m.Clone().Raw(), m.CloneTo(nil).Raw(), m.CloneTo(make([]byte, 0, len(b)+17)).Raw(),
-			m.CloneTo(make([]byte, 3)).Raw(), m.CloneToBuffer(buffer.New()).Raw())
 		pre := buffer.New()
 		pre.Write([]byte{1, 2, 3})
-		clones = append(clones, m.CloneToBuffer(pre).Raw())
+		for _, c := range []spec.Message{m.Clone(), m.CloneTo(nil), m.CloneTo(make([]byte, 0, len(b)+17)),
+			m.CloneTo(make([]byte, 3)), m.CloneToBuffer(buffer.New()), m.CloneToBuffer(pre)} {
+			c := c
+			clones = append(clones, c.Raw())
+			walks = append(walks, func() string { return rd.WalkMessage(c.Raw(), c) })
+		}
 	case spec.TypeList, spec.TypeBigList:
 		l := spec.OpenList(b)
-		clones = append(clones, l.Clone().Raw(), l.CloneTo(nil).Raw(), l.CloneTo(make([]byte, 0, len(b)+5)).Raw(), l.CloneTo(make([]byte, 2)).Raw())
+		for _, c := range []spec.List{l.Clone(), l.CloneTo(nil), l.CloneTo(make([]byte, 0, len(b)+5)), l.CloneTo(make([]byte, 2))} {
+			c := c
+			clones = append(clones, c.Raw())
+			walks = append(walks, func() string { return rd.WalkList(c.Raw(), c) })
+		}
 	default:
 		return ""
 	}
@@ -262,6 +271,16 @@ func cloneCheck(b []byte, want string) (bad string) {
 		}
 		if rd.Walk(c, c) != want {
 			return "reads-differently-" + strconv.Itoa(i)
+		}
+	}
+	// a clone is independent of its source: it reads the same through the clone object itself
+	// after the source bytes have been reused for something else
+	for i := range b {
+		b[i] = 0xa5
+	}
+	for i, wf := range walks {
+		if wf() != want {
+			return "depends-on-its-source-" + strconv.Itoa(i)
 		}
 	}
 	return ""
